@@ -1,5 +1,494 @@
+/-
+C08 — Validator verdicts follow the documented constraint semantics.
+
+Property theorems and non-vacuity examples only (helper lemmas live in Octave/Lemmas).  Statements are
+over the executable model (`Octave.Model.*`, tied to constraints.py / validator.py by the translator
+and by the correspondence check) and the independent `Octave.Spec.Meaning`.
+`env` (regex engine, `repr(float)`) is universally quantified everywhere.
+-/
 import Octave.Model.Constraints
 import Octave.Model.Validator
 import Octave.Spec.Meaning
+import Octave.Lemmas.PyEq
+import Octave.Lemmas.Conflicts
+import Octave.Lemmas.Kinds
+import Octave.Lemmas.Validator
+import Octave.Lemmas.Date
+import Octave.Gen.Constraints
+import Octave.Gen.Validator
+import Octave.Gen.Unicode
 namespace Octave.C08
+open Octave Octave.PyVal Octave.Constraint
+
+/-- a concrete environment for the examples -/
+def env0 : Env := ⟨fun _ _ => false, fun _ => true, fun s => s⟩
+
+/-! ## Facts about the tables regenerated from the source (re-proved on every build) -/
+
+theorem gen_evaluateCodes : Gen.evaluateCodes =
+    [("Constraint", []), ("RequiredConstraint", ["E003"]), ("OptionalConstraint", []), ("ConstConstraint", ["E004"]),
+     ("EnumConstraint", ["E005", "E006"]), ("TypeConstraint", ["E999", "E007"]), ("RegexConstraint", ["E008"]),
+     ("DirConstraint", ["E009"]), ("AppendOnlyConstraint", ["E010"]), ("RangeConstraint", ["E011"]),
+     ("MaxLengthConstraint", ["E012"]), ("MinLengthConstraint", ["E013"]), ("DateConstraint", ["E014"]),
+     ("Iso8601Constraint", ["E015"]), ("LiteralConstraint", ["E007"]), ("LangConstraint", ["E007"]),
+     ("ConstraintChain", ["E999"])] := by decide
+
+theorem gen_parseDispatch : Gen.parseDispatch =
+    [("eq", "REQ", "", "RequiredConstraint", 0), ("eq", "OPT", "", "OptionalConstraint", 0), ("eq", "DIR", "", "DirConstraint", 0),
+     ("eq", "APPEND_ONLY", "", "AppendOnlyConstraint", 0), ("eq", "DATE", "", "DateConstraint", 0),
+     ("eq", "ISO8601", "", "Iso8601Constraint", 0), ("eq", "TYPE[LITERAL]", "", "LiteralConstraint", 0),
+     ("wrap", "LANG[", "]", "LangConstraint", 5), ("wrap", "CONST[", "]", "ConstConstraint", 6),
+     ("wrap", "ENUM[", "]", "EnumConstraint", 5), ("wrap", "TYPE[", "]", "TypeConstraint", 5),
+     ("wrap", "TYPE(", ")", "TypeConstraint", 5), ("wrap", "REGEX[", "]", "RegexConstraint", 6),
+     ("wrap", "RANGE[", "]", "RangeConstraint", 6), ("wrap", "MAX_LENGTH[", "]", "MaxLengthConstraint", 11),
+     ("wrap", "MIN_LENGTH[", "]", "MinLengthConstraint", 11)] ∧ Gen.parseElseRaises = true := by decide
+
+/-- every keyword's argument slice starts right after the keyword: `part[len(kw):-1]` -/
+theorem gen_parseDispatch_slices : ∀ r ∈ Gen.parseDispatch, r.1 = "wrap" → r.2.2.2.2 = r.2.1.length := by decide
+
+/-- `TYPE[LITERAL]` is tested before the generic `TYPE[` branch (otherwise it would build a TypeConstraint) -/
+theorem gen_literal_before_type :
+    (Gen.parseDispatch.map (·.2.1)).idxOf "TYPE[LITERAL]" < (Gen.parseDispatch.map (·.2.1)).idxOf "TYPE[" := by decide
+
+theorem gen_splitPartsChars : Gen.splitPartsChars = ["∧", "[", "(", "]", ")", " "] := by decide
+
+theorem gen_typeMap : Gen.typeMap = [("STRING", "str"), ("NUMBER", "int|float"), ("BOOLEAN", "bool"), ("LIST", "list")]
+    ∧ Gen.typeBoolRejected = ["NUMBER"] := by decide
+
+theorem gen_atomLiterals : Gen.atomLiterals = [("true", "True"), ("false", "False"), ("null", "None")] := by decide
+
+theorem gen_conflict : Gen.conflictClasses = ["RequiredConstraint", "OptionalConstraint", "ConstConstraint", "EnumConstraint"]
+    ∧ Gen.conflictCodes = ["E999"] := by decide
+
+theorem gen_policy : Gen.policyMembers = [("REJECT", "REJECT"), ("IGNORE", "IGNORE"), ("WARN", "WARN")]
+    ∧ Gen.unknownFieldBranches = [("REJECT", ["E007"], ["error"]), ("WARN", ["W001"], ["warning"])]
+    ∧ Gen.policyDefaults = ["REJECT", "except:REJECT"]
+    ∧ Gen.missingRequiredCodes = ["E003"] ∧ Gen.severityDefault = "error" := by decide
+
+/-- running interpreter: only 'e'/'E' lower-case to a text containing 'e' (`_parse_atom`'s float test),
+ASCII '0' heads the digit table and no other digit run starts below U+0080 -/
+theorem gen_unicode : Gen.lowerToE = [] ∧ Gen.digitZeros.head? = some 48
+    ∧ (∀ z ∈ Gen.digitZeros, z = 48 ∨ 128 ≤ z) ∧ (∀ c ∈ Gen.spaceCodes, c ≠ 45 ∧ ¬ (48 ≤ c ∧ c ≤ 57)) := by decide
+
+/-! ## Chains -/
+
+theorem firstFailure_ok_iff (env : Env) (cs : List Constraint) (v : PyVal) :
+    firstFailure env cs v = .ok ↔ ∀ c ∈ cs, c.eval env v = .ok := by
+  induction cs with
+  | nil => simp [firstFailure]
+  | cons c cs ih =>
+    simp only [firstFailure, List.mem_cons, forall_eq_or_imp]
+    cases h : c.eval env v <;> simp [ih]
+
+/-- **C08_chain_iff.** A chain accepts a value exactly when it declares no conflict and every member
+accepts the value on its own (any length, any member kinds). -/
+theorem C08_chain_iff (env : Env) (cs : List Constraint) (v : PyVal) :
+    chainValid env cs v = true ↔ (detectConflicts cs = [] ∧ ∀ c ∈ cs, c.eval env v = .ok) := by
+  unfold chainValid evalChain
+  rw [← firstFailure_ok_iff]
+  cases hc : detectConflicts cs with
+  | nil => cases firstFailure env cs v <;> simp
+  | cons x xs => simp
+
+example : chainValid env0 [.req, .enum ["ACTIVE".toList, "DONE".toList], .const (.str "ACTIVE".toList), .maxLength 6]
+    (.str "ACTIVE".toList) = true := by decide
+example : chainValid env0 [.req, .opt] (.str "x".toList) = false := by decide
+
+/-- **C08_conflicts.** `detect_conflicts` reports something exactly when the chain contains REQ with OPT,
+two CONSTs that are not equal, or a CONST whose `str()` is not among the values of some ENUM. -/
+theorem C08_conflicts (cs : List Constraint) : detectConflicts cs ≠ [] ↔ Spec.Conflict cs := by
+  rw [Ne, detectConflicts_eq_nil_iff]; exact Classical.not_not
+
+example : Spec.Conflict [.req, .opt] := by decide
+example : Spec.Conflict [.const (.int 1), .req, .const (.int 2)] := by decide
+example : Spec.Conflict [.enum ["A".toList], .const (.str "B".toList)] := by decide
+example : ¬ Spec.Conflict [.const (.int 1), .req, .const (.float "1.0".toList (.fin 1)), .enum ["1".toList, "1.0".toList]] := by decide
+
+/-- the adjacent-pair check of the code finds a difference exactly when *some* two CONSTs differ -/
+theorem C08_const_all_pairs (cs : List Constraint) :
+    adjacentDiffs (cs.filterMap constVal?) = [] ↔ (Spec.constsOf cs).Pairwise (fun a b => pyEq a b = true) := by
+  rw [adjacentDiffs_eq_nil_iff, constsOf_eq]
+
+/-- **C08_perm.** Permuting a chain does not change whether it accepts a value. -/
+theorem C08_perm (env : Env) {cs₁ cs₂ : List Constraint} (h : cs₁.Perm cs₂) (v : PyVal) :
+    chainValid env cs₁ v = chainValid env cs₂ v := by
+  have key : ∀ a b : List Constraint, a.Perm b → chainValid env a v = true → chainValid env b v = true := by
+    intro a b hab ha
+    rw [C08_chain_iff] at ha ⊢
+    refine ⟨?_, fun c hc => ha.2 c (hab.mem_iff.2 hc)⟩
+    rw [detectConflicts_eq_nil_iff] at ha ⊢
+    exact fun hb => ha.1 ((conflict_perm hab).2 hb)
+  cases h1 : chainValid env cs₁ v <;> cases h2 : chainValid env cs₂ v <;> try rfl
+  · exact absurd (key _ _ h.symm h2) (by simp [h1])
+  · exact absurd (key _ _ h h1) (by simp [h2])
+
+example : chainValid env0 [.const (.int 1), .type "NUMBER".toList, .req] (.int 1)
+    = chainValid env0 [.req, .const (.int 1), .type "NUMBER".toList] (.int 1) :=
+  C08_perm env0 (List.perm_append_comm (l₁ := [_, _]) (l₂ := [_])) _
+
+/-- **C08_chain_spec_partial.** The chain verdict is the documented one — "no conflict and every member's
+documented meaning holds" — for every chain and value outside the guards of the `_partial` member theorems
+below (`hm` asks for the member equivalence, which those theorems supply kind by kind). -/
+theorem C08_chain_spec_partial (env : Env) (cs : List Constraint) (v : PyVal)
+    (hm : ∀ c ∈ cs, (c.eval env v = .ok ↔ Spec.means env c v)) :
+    chainValid env cs v = true ↔ Spec.chainAccepts env cs v := by
+  rw [C08_chain_iff, detectConflicts_eq_nil_iff]
+  unfold Spec.chainAccepts
+  constructor
+  · rintro ⟨h1, h2⟩; exact ⟨h1, fun c hc => (hm c hc).1 (h2 c hc)⟩
+  · rintro ⟨h1, h2⟩; exact ⟨h1, fun c hc => (hm c hc).2 (h2 c hc)⟩
+
+/-! ## Members: `evaluate` accepts exactly what the documentation says -/
+
+/-- REQ: non-empty (not None, not the empty string). -/
+theorem C08_req (env : Env) (v : PyVal) : eval env .req v = .ok ↔ Spec.means env .req v := by
+  cases v with
+  | str s => cases s <;> simp [eval, evalReq, Spec.means, Spec.NonEmpty, pyEq, num?]
+  | _ => simp [eval, evalReq, Spec.means, Spec.NonEmpty, pyEq, num?]
+
+example : eval env0 .req (.str []) = .fail "E003" ∧ eval env0 .req .null = .fail "E003" ∧ eval env0 .req (.int 0) = .ok := by decide
+
+/-- OPT always passes. -/
+theorem C08_opt (env : Env) (v : PyVal) : eval env .opt v = .ok ↔ Spec.means env .opt v := by
+  simp [eval, Spec.means]
+
+/-- CONST: Python equality with the constant. -/
+theorem C08_const (env : Env) (c v : PyVal) : eval env (.const c) v = .ok ↔ Spec.means env (.const c) v := by
+  simp only [eval, evalConst, Spec.means]
+  cases pyEq v c <;> simp
+
+example : eval env0 (.const (.int 1)) (.float "1.0".toList (.fin 1)) = .ok ∧ eval env0 (.const (.int 1)) (.bool true) = .ok
+    ∧ eval env0 (.const (.int 1)) (.str "1".toList) = .fail "E004" := by decide
+
+/-- ENUM: `str(value)` is an allowed value, or a prefix of exactly one allowed value. -/
+theorem C08_enum (env : Env) (a : List Str) (v : PyVal) : eval env (.enum a) v = .ok ↔ Spec.means env (.enum a) v := by
+  simp only [eval, evalEnum, Spec.means, Spec.EnumAccepts, filter_length_eq_countP]
+  by_cases hm : a.contains v.pyStr = true
+  · simp [hm, List.contains_iff_mem.1 hm]
+  · have hn : v.pyStr ∉ a := fun h => hm (List.contains_iff_mem.2 h)
+    simp only [hm, Bool.false_eq_true, ↓reduceIte, hn, false_or]
+    generalize Spec.prefixMatches a v.pyStr = n
+    rcases n with _ | _ | n <;> simp
+
+/-- ENUM ambiguity: E006 exactly when there is no exact match and at least two allowed values start with the text. -/
+theorem C08_enum_ambiguous (env : Env) (a : List Str) (v : PyVal) :
+    eval env (.enum a) v = .fail "E006" ↔ Spec.EnumAmbiguous a (pyStr v) := by
+  simp only [eval, evalEnum, Spec.EnumAmbiguous, filter_length_eq_countP]
+  by_cases hm : a.contains v.pyStr = true
+  · simp [hm, List.contains_iff_mem.1 hm]
+  · have hn : v.pyStr ∉ a := fun h => hm (List.contains_iff_mem.2 h)
+    simp only [hm, Bool.false_eq_true, ↓reduceIte, hn, not_false_eq_true, true_and]
+    generalize Spec.prefixMatches a v.pyStr = n
+    rcases n with _ | _ | n <;> simp
+
+/-- ENUM without duplicated allowed values: exact match or *the* unique allowed value it is a prefix of. -/
+theorem C08_enum_unique (env : Env) (a : List Str) (hnd : a.Nodup) (v : PyVal) :
+    eval env (.enum a) v = .ok ↔
+      (pyStr v ∈ a ∨ ∃ x ∈ a, pyStr v <+: x ∧ ∀ y ∈ a, pyStr v <+: y → y = x) := by
+  rw [C08_enum]; simp only [Spec.means, Spec.EnumAccepts, prefixMatches_eq_one_iff hnd]
+
+def enum3 : List Str := ["ACTIVE".toList, "ACTIVATING".toList, "DONE".toList]
+example : enum3.Nodup := by decide
+example : eval env0 (.enum enum3) (.str "ACTIVE".toList) = .ok ∧ eval env0 (.enum enum3) (.str "D".toList) = .ok
+    ∧ eval env0 (.enum enum3) (.str "ACTIV".toList) = .fail "E006" ∧ eval env0 (.enum enum3) (.str "TIV".toList) = .fail "E005"
+    ∧ eval env0 (.enum ["ACT".toList, "ACTIVE".toList]) (.str "ACT".toList) = .ok := by decide
+example : Spec.EnumAmbiguous enum3 "ACT".toList := by decide
+
+/-- TYPE: by value kind; a boolean is never a NUMBER; an unknown type keyword accepts nothing. -/
+theorem C08_type (env : Env) (t : Str) (v : PyVal) : eval env (.type t) v = .ok ↔ Spec.means env (.type t) v := by
+  have d1 : "STRING".toList ≠ "NUMBER".toList := by decide
+  have d2 : "STRING".toList ≠ "BOOLEAN".toList := by decide
+  have d3 : "STRING".toList ≠ "LIST".toList := by decide
+  have d4 : "NUMBER".toList ≠ "BOOLEAN".toList := by decide
+  have d5 : "NUMBER".toList ≠ "LIST".toList := by decide
+  have d6 : "BOOLEAN".toList ≠ "LIST".toList := by decide
+  simp only [eval, evalType, typeTest, Spec.means, Spec.TypeAccepts, beq_iff_eq]
+  generalize "STRING".toList = S at *
+  generalize "NUMBER".toList = N at *
+  generalize "BOOLEAN".toList = B at *
+  generalize "LIST".toList = L at *
+  by_cases h1 : t = S
+  · subst h1; cases v <;> simp [Spec.kindOf, isStr, isBool, d1, d2, d3]
+  by_cases h2 : t = N
+  · subst h2; cases v <;> simp [Spec.kindOf, isIntInst, isFloatInst, isBool, d1.symm, d4, d5]
+  by_cases h3 : t = B
+  · subst h3; cases v <;> simp [Spec.kindOf, isBool, d2.symm, d4.symm, d6]
+  by_cases h4 : t = L
+  · subst h4; cases v <;> simp [Spec.kindOf, isList, isBool, d3.symm, d5.symm, d6.symm]
+  simp [h1, h2, h3, h4]
+
+/-- booleans are never numbers -/
+theorem C08_type_bool_not_number (env : Env) (b : Bool) : eval env (.type "NUMBER".toList) (.bool b) = .fail "E007" := by
+  simp [eval, evalType, typeTest, isBool, isIntInst, isFloatInst]
+
+example : eval env0 (.type "NUMBER".toList) (.int 3) = .ok ∧ eval env0 (.type "NUMBER".toList) (.float "0.5".toList (.fin (mkRat 1 2))) = .ok
+    ∧ eval env0 (.type "BOOLEAN".toList) (.bool true) = .ok ∧ eval env0 (.type "LITERAL".toList) (.str []) = .fail "E999" := by decide
+
+/-- REGEX: the external `re.match` verdict on `str(value)`. -/
+theorem C08_regex (env : Env) (p : Str) (v : PyVal) : eval env (.regex p) v = .ok ↔ Spec.means env (.regex p) v := by
+  simp only [eval, evalRegex, Spec.means]; cases env.reMatch p v.pyStr <;> simp
+
+/-- DIR: no NUL character. -/
+theorem C08_dir (env : Env) (v : PyVal) : eval env .dir v = .ok ↔ Spec.means env .dir v := by
+  simp only [eval, evalDir, Spec.means]
+  by_cases h : v.pyStr.contains '\x00' = true
+  · simp [h, List.contains_iff_mem.1 h]
+  · have : '\x00' ∉ v.pyStr := fun hm => h (List.contains_iff_mem.2 hm)
+    simp [h, this]
+
+/-- APPEND_ONLY: lists only. -/
+theorem C08_appendOnly (env : Env) (v : PyVal) : eval env .appendOnly v = .ok ↔ Spec.means env .appendOnly v := by
+  cases v <;> simp [eval, evalAppendOnly, Spec.means, Spec.kindOf, isList]
+
+/-- guard of the RANGE theorem: no NaN bound; the value does not denote NaN — known finding F19; the clause
+disappears as soon as the source tests for NaN (`Gen.rangeNanRejected`, regenerated on every run) —; and an int value is
+exactly representable as a binary64 (the code compares `float(value)`; beyond 2^53 rounding may move the value across
+a bound, and beyond 2^1024 `float()` raises OverflowError — known finding F36). -/
+def RangeGuard (lo hi : FVal) (v : PyVal) : Prop :=
+  lo ≠ .nan ∧ hi ≠ .nan ∧ (Gen.rangeNanRejected = false → Spec.numberOf v ≠ some .nan) ∧
+    ∀ i, v = .int i → floatOfInt i = some (FVal.ofInt i)
+
+/-- **C08_range_partial.** RANGE: a number (int, float, numeral text — never a bool) within the inclusive bounds. -/
+theorem C08_range_partial (env : Env) (lo hi : FVal) (v : PyVal) (hg : RangeGuard lo hi v) :
+    eval env (.range lo hi) v = .ok ↔ Spec.means env (.range lo hi) v := by
+  obtain ⟨hlo, hhi, hnan, hint⟩ := hg
+  simp only [eval, evalRange, Spec.means, Spec.RangeAccepts]
+  cases v with
+  | null => simp [isBool, toFloat, Spec.numberOf]
+  | bool b => simp [isBool, Spec.numberOf]
+  | list xs => simp [isBool, toFloat, Spec.numberOf]
+  | zone c t f => simp [isBool, toFloat, Spec.numberOf]
+  | int i =>
+    have hx : Gen.rangeNanRejected = false → FVal.ofInt i ≠ .nan := by intro _; simp [FVal.ofInt]
+    simp only [isBool, toFloat, hint i rfl, Spec.numberOf, Bool.false_eq_true, ↓reduceIte]
+    rw [← range_cond_iff Gen.rangeNanRejected hlo hhi hx]
+    cases (Gen.rangeNanRejected && (FVal.ofInt i).isNan) || (FVal.ofInt i).lt lo || (FVal.ofInt i).gt hi <;> simp
+  | float r x =>
+    have hx : Gen.rangeNanRejected = false → x ≠ .nan := by intro hf h; apply hnan hf; simp [Spec.numberOf, h]
+    simp only [isBool, toFloat, Spec.numberOf, Bool.false_eq_true, ↓reduceIte]
+    rw [← range_cond_iff Gen.rangeNanRejected hlo hhi hx]
+    cases (Gen.rangeNanRejected && x.isNan) || x.lt lo || x.gt hi <;> simp
+  | str s =>
+    simp only [isBool, toFloat, Spec.numberOf, Bool.false_eq_true, ↓reduceIte]
+    cases hs : pyFloatOfStr s with
+    | none => simp
+    | some x =>
+      have hx : Gen.rangeNanRejected = false → x ≠ .nan := by intro hf h; apply hnan hf; simp [Spec.numberOf, hs, h]
+      simp only
+      rw [← range_cond_iff Gen.rangeNanRejected hlo hhi hx]
+      cases (Gen.rangeNanRejected && x.isNan) || x.lt lo || x.gt hi <;> simp
+
+/-- RANGE rejects booleans -/
+theorem C08_range_bool (env : Env) (lo hi : FVal) (b : Bool) : eval env (.range lo hi) (.bool b) = .fail "E011" := by
+  simp [eval, evalRange, isBool]
+
+def r15 : Constraint := .range (FVal.ofInt 1) (FVal.ofInt 5)
+example : RangeGuard (FVal.ofInt 1) (FVal.ofInt 5) (.int 5) := by
+  refine ⟨by decide, by decide, fun _ => by decide, ?_⟩; intro i h; cases h; decide
+example : eval env0 r15 (.int 1) = .ok ∧ eval env0 r15 (.int 5) = .ok ∧ eval env0 r15 (.int 0) = .fail "E011"
+    ∧ eval env0 r15 (.int 6) = .fail "E011" ∧ eval env0 r15 (.str "5".toList) = .ok ∧ eval env0 r15 (.str "5.5".toList) = .fail "E011"
+    ∧ eval env0 r15 (.bool true) = .fail "E011" := by decide
+/-- known finding F19, on the witness: the text "nan" denotes no number in [1,5], yet `evaluate` accepts it -/
+theorem C08_F19_witness : ¬ Spec.means env0 r15 (.str "nan".toList) ∧
+    (Gen.rangeNanRejected = false → eval env0 r15 (.str "nan".toList) = .ok) := by decide
+/-- an int just above the largest binary64 (≈ 1.797·10^308) -/
+def hugeInt : Int := 179769313486231590772930519078902473361797697894230657273430081157732675805500963132708477322407536021120113879871393357658789768814416622492847430639474124377767893657175190231543223505632124129903584712028869632318800665427140160825523506532149958333981173696152128117405589926445134109200300003000030000300003000030000
+/-- known finding F36, on a witness: an int beyond the binary64 range makes `evaluate` raise -/
+theorem C08_F36_witness : "OverflowError" ∉ Gen.rangeCaught → eval env0 r15 (.int hugeInt) = .raise "OverflowError" := by
+  decide +kernel
+
+/-- outside F36 no member raises: `evaluate` returns a verdict whenever the value is not an int beyond the binary64 range -/
+theorem C08_no_raise_partial (env : Env) (c : Constraint) (v : PyVal) (hv : ∀ i, v = .int i → floatOfInt i ≠ none) (x : String) :
+    eval env c v ≠ .raise x := by
+  cases c <;> simp only [eval, evalReq, evalConst, evalEnum, evalType, evalRegex, evalDir, evalAppendOnly, evalMaxLength,
+    evalMinLength, evalDate, evalIso8601, evalLiteral, evalLang] <;> try (repeat' split) <;> simp
+  case range lo hi =>
+    simp only [evalRange]
+    cases v with
+    | int i =>
+      simp only [isBool, toFloat]
+      cases h : floatOfInt i with
+      | none => exact absurd h (hv i rfl)
+      | some y => simp only [Bool.false_eq_true, ↓reduceIte]; split <;> simp
+    | bool b => simp [isBool]
+    | null => simp [isBool, toFloat]
+    | float r y => simp only [isBool, toFloat, Bool.false_eq_true, ↓reduceIte]; split <;> simp
+    | str s => simp only [isBool, toFloat, Bool.false_eq_true, ↓reduceIte]; cases pyFloatOfStr s <;> simp <;> split <;> simp
+    | list xs => simp [isBool, toFloat]
+    | zone a b d => simp [isBool, toFloat]
+
+example : ∀ i, (PyVal.int 7) = .int i → floatOfInt i ≠ none := by intro i h; cases h; decide
+
+/-- MAX_LENGTH: strings and lists only, length ≤ N. -/
+theorem C08_maxLength (env : Env) (n : Int) (v : PyVal) : eval env (.maxLength n) v = .ok ↔ Spec.means env (.maxLength n) v := by
+  cases v <;> simp [eval, evalMaxLength, len?, Spec.means, Spec.MaxLenAccepts, Spec.lengthOf, Int.not_lt]
+
+/-- MIN_LENGTH: strings and lists only, length ≥ N. -/
+theorem C08_minLength (env : Env) (n : Int) (v : PyVal) : eval env (.minLength n) v = .ok ↔ Spec.means env (.minLength n) v := by
+  cases v <;> simp [eval, evalMinLength, len?, Spec.means, Spec.MinLenAccepts, Spec.lengthOf, Int.not_lt]
+
+example : eval env0 (.maxLength 3) (.str "abc".toList) = .ok ∧ eval env0 (.maxLength 3) (.str "abcd".toList) = .fail "E012"
+    ∧ eval env0 (.maxLength 3) (.int 1) = .fail "E012" ∧ eval env0 (.minLength 1) (.list []) = .fail "E013"
+    ∧ eval env0 (.minLength 1) (.list [.null]) = .ok := by decide
+
+/-- the generated digit table has the two properties the DATE theorem rests on -/
+theorem gen_digitTable : DigitTableOk := by unfold DigitTableOk; decide
+
+/-- **C08_date.** DATE accepts exactly the ten-character texts `YYYY-MM-DD` of ASCII digits that name a real calendar
+date (years 0001–9999, month lengths and leap years by the Gregorian rule).  The regex of the code admits every Unicode
+decimal digit and a trailing newline; `fromisoformat` (on the UTF-8 bytes) refuses both, and the theorem shows it. -/
+theorem C08_date (env : Env) (v : PyVal) : eval env .date v = .ok ↔ Spec.means env .date v := by
+  simp only [eval, evalDate, Spec.means]
+  constructor
+  · intro h
+    by_cases h1 : reDateMatch v.pyStr = true
+    · by_cases h2 : Iso.fromIso v.pyStr = true
+      · exact spec_of_date_accept gen_digitTable _ h1 h2
+      · simp [h1, h2] at h
+    · simp [h1] at h
+  · intro h
+    obtain ⟨h1, h2⟩ := date_accept_of_spec gen_digitTable _ h
+    simp [h1, h2]
+
+example : eval env0 .date (.str "2024-02-29".toList) = .ok ∧ eval env0 .date (.str "2023-02-29".toList) = .fail "E014"
+    ∧ eval env0 .date (.str "2024-02-29\n".toList) = .fail "E014" ∧ eval env0 .date (.str "٢٠٢٤-٠١-١٥".toList) = .fail "E014"
+    ∧ eval env0 .date (.str "0000-01-01".toList) = .fail "E014" ∧ eval env0 .date (.int 5) = .fail "E014" := by decide
+example : Spec.IsDateText "1900-02-28".toList ∧ ¬ Spec.IsDateText "1900-02-29".toList ∧ Spec.IsDateText "2000-02-29".toList := by decide
+
+/-- ISO8601: by the reading fixed in DESIGN C08, what `datetime.fromisoformat` accepts after `Z → +00:00`. -/
+theorem C08_iso8601 (env : Env) (v : PyVal) : eval env .iso8601 v = .ok ↔ Spec.means env .iso8601 v := by
+  simp only [eval, evalIso8601, Spec.means]; cases Iso.fromIso (replaceZ v.pyStr) <;> simp
+
+/-- **C08_iso8601_dates.** "date or datetime", the date half: every text DATE accepts, ISO8601 accepts. -/
+theorem C08_iso8601_dates (env : Env) (v : PyVal) (h : Spec.means env .date v) : eval env .iso8601 v = .ok := by
+  have hacc := date_accept_of_spec gen_digitTable _ h
+  have hz : replaceZ v.pyStr = v.pyStr := replaceZ_of_isDateText _ h
+  simp [eval, evalIso8601, hz, hacc.2]
+
+theorem evalIso_str (env : Env) (x : Str) (h : Iso.fromIso (replaceZ x) = true) : eval env .iso8601 (.str x) = .ok := by
+  show (if Iso.fromIso (replaceZ x) then Verdict.ok else Verdict.fail "E015") = Verdict.ok
+  rw [h]; rfl
+
+/-- **C08_iso8601_documented.** The datetime forms the docstring documents — `YYYY-MM-DDTHH:MM:SS`, the same with `Z`,
+the same with `±HH:MM` — are accepted whenever their fields name a real date, a time of day and an offset below 24 h. -/
+theorem C08_iso8601_documented (env : Env) (t : DT) (hd : t.digits) (hv : t.valid) :
+    eval env .iso8601 (.str t.text) = .ok ∧ eval env .iso8601 (.str (t.text ++ ['Z'])) = .ok ∧
+    ∀ sg o p q r : Char, (sg = '+' ∨ sg = '-') → dig o.toNat → dig p.toNat → dig q.toNat → dig r.toNat →
+      two o.toNat p.toNat ≤ 23 → two q.toNat r.toNat ≤ 59 →
+      eval env .iso8601 (.str (t.text ++ [sg, o, p, ':', q, r])) = .ok :=
+  ⟨evalIso_str env _ (iso_plain t hd hv), evalIso_str env _ (iso_Z t hd hv),
+   fun sg o p q r hsg ho hp hq hr hoff hmin => evalIso_str env _ (iso_offset t hd hv sg o p q r hsg ho hp hq hr hoff hmin)⟩
+
+def dtEx : DT := ⟨'2', '0', '2', '4', '0', '2', '2', '9', '2', '3', '5', '9', '5', '9'⟩
+example : dtEx.digits ∧ dtEx.valid ∧ dtEx.text = "2024-02-29T23:59:59".toList := by
+  refine ⟨by unfold DT.digits dig; decide, by unfold DT.valid; decide, by decide⟩
+example : eval env0 .iso8601 (.str "2024-02-30T10:00:00".toList) = .fail "E015"
+    ∧ eval env0 .iso8601 (.str "2024-01-15T25:00:00".toList) = .fail "E015" ∧ eval env0 .iso8601 (.str "2024-01-15T10:00:00Z".toList) = .ok
+    ∧ eval env0 .iso8601 (.str "2024-W03-1".toList) = .ok ∧ eval env0 .iso8601 (.int 20240115) = .ok := by decide
+
+/-- LITERAL: literal zones only. -/
+theorem C08_literal (env : Env) (v : PyVal) : eval env .literal v = .ok ↔ Spec.means env .literal v := by
+  cases v <;> simp [eval, evalLiteral, Spec.means, Spec.kindOf, isZone]
+
+/-- LANG: a literal zone with a non-empty tag equal to the expected one up to (ASCII) case. -/
+theorem C08_lang (env : Env) (tag : Str) (v : PyVal) : eval env (.lang tag) v = .ok ↔ Spec.means env (.lang tag) v := by
+  cases v with
+  | zone c t f =>
+    cases t with
+    | none => simp [eval, evalLang, Spec.means, Spec.LangAccepts]
+    | some t =>
+      simp only [eval, evalLang, Spec.means, Spec.LangAccepts]
+      by_cases h1 : t = []
+      · simp [h1]
+      · by_cases h2 : asciiLower t = tag <;> simp [h1, h2]
+  | _ => simp [eval, evalLang, Spec.means, Spec.LangAccepts]
+
+example : eval env0 (.lang "python".toList) (.zone [] (some "Python".toList) []) = .ok
+    ∧ eval env0 (.lang "python".toList) (.zone [] none []) = .fail "E007" := by decide
+
+/-! ## Document level (`Validator._validate_section`, `_validate_unknown_fields`)
+
+A section is the list of its `Assignment` children `(key, value)`; a schema is a list of fields with their
+chains and an `UNKNOWN_FIELDS` policy text.  `es` is everything the validator reports for the section. -/
+
+/-- **C08_missing_required.** A field whose chain has REQ and that is missing from the instance block (or is
+null there) always produces an error (E003, severity error) naming that field. -/
+theorem C08_missing_required (env : Env) (sec : Str) (children : List (Str × PyVal)) (policy : Str) (fields : List SField)
+    (es : List VErr) (h : validateSection env sec children policy fields = .errors es)
+    (name : Str) (cs : List Constraint) (hf : (name, some cs) ∈ fields) (hreq : ∃ c ∈ cs, Spec.IsReq c)
+    (hmiss : lookupLast name children = none ∨ lookupLast name children = some .null) :
+    (⟨"E003", fieldPath sec name, "error"⟩ : VErr) ∈ es := by
+  obtain ⟨ef, hef, rfl⟩ := validateSection_errors env sec children policy fields es h
+  apply List.mem_append_right
+  have hnone : isNone ((lookupLast name children).getD .null) = true := by
+    rcases hmiss with h | h <;> simp [h, isNone]
+  have hany : cs.any Constraint.isReq = true := (any_isReq_iff cs).2 hreq
+  have hfield : validateField env sec children (name, some cs) = .errors [⟨"E003", fieldPath sec name, "error"⟩] := by
+    simp [validateField, hany, hnone]
+  exact validateFields_contains env sec children fields ef hef _ hf _ hfield _ (List.mem_singleton.2 rfl)
+
+/-- **C08_unknown_reject.** Under REJECT (also the fail-safe for an unrecognised policy text) every field of the
+instance block that the schema does not define produces an error (E007, severity error) naming it. -/
+theorem C08_unknown_reject (env : Env) (sec : Str) (children : List (Str × PyVal)) (policy : Str) (fields : List SField)
+    (es : List VErr) (h : validateSection env sec children policy fields = .errors es)
+    (hp : policyOf policy = .reject) (k : Str) (hk : k ∈ children.map (·.1)) (hu : k ∉ fields.map (·.1)) :
+    (⟨"E007", fieldPath sec k, "error"⟩ : VErr) ∈ es := by
+  obtain ⟨ef, _, rfl⟩ := validateSection_errors env sec children policy fields es h
+  apply List.mem_append_left
+  simp only [validateUnknownFields, hp]
+  exact List.mem_map.2 ⟨k, (mem_unknown _ _ k).2 ⟨hk, hu⟩, rfl⟩
+
+/-- **C08_unknown_warn.** Under WARN an unknown field produces a warning naming it (W001, severity warning), and
+*only* a warning: every entry that names the field has severity "warning". -/
+theorem C08_unknown_warn (env : Env) (sec : Str) (children : List (Str × PyVal)) (policy : Str) (fields : List SField)
+    (es : List VErr) (h : validateSection env sec children policy fields = .errors es)
+    (hp : policyOf policy = .warn) (k : Str) (hk : k ∈ children.map (·.1)) (hu : k ∉ fields.map (·.1)) :
+    (⟨"W001", fieldPath sec k, "warning"⟩ : VErr) ∈ es ∧
+      ∀ e ∈ es, e.path = fieldPath sec k → (e.severity = "warning" ∧ e.code = "W001") := by
+  obtain ⟨ef, hef, rfl⟩ := validateSection_errors env sec children policy fields es h
+  constructor
+  · apply List.mem_append_left
+    simp only [validateUnknownFields, hp]
+    exact List.mem_map.2 ⟨k, (mem_unknown _ _ k).2 ⟨hk, hu⟩, rfl⟩
+  · intro e he hpath
+    rcases List.mem_append.1 he with he | he
+    · simp only [validateUnknownFields, hp] at he
+      obtain ⟨f, _, rfl⟩ := List.mem_map.1 he
+      exact ⟨rfl, rfl⟩
+    · obtain ⟨f, hf, hfp, _⟩ := validateFields_entries env sec children fields ef hef e he
+      have : f.1 = k := fieldPath_inj sec _ _ (hfp.symm.trans hpath)
+      exact absurd (List.mem_map.2 ⟨f, hf, this⟩) hu
+
+/-- **C08_unknown_ignore.** Under IGNORE an unknown field produces nothing: no entry names it. -/
+theorem C08_unknown_ignore (env : Env) (sec : Str) (children : List (Str × PyVal)) (policy : Str) (fields : List SField)
+    (es : List VErr) (h : validateSection env sec children policy fields = .errors es)
+    (hp : policyOf policy = .ignore) (k : Str) (hu : k ∉ fields.map (·.1)) :
+    ∀ e ∈ es, e.path ≠ fieldPath sec k := by
+  obtain ⟨ef, hef, rfl⟩ := validateSection_errors env sec children policy fields es h
+  intro e he hpath
+  rcases List.mem_append.1 he with he | he
+  · simp [validateUnknownFields, hp] at he
+  · obtain ⟨f, hf, hfp, _⟩ := validateFields_entries env sec children fields ef hef e he
+    have : f.1 = k := fieldPath_inj sec _ _ (hfp.symm.trans hpath)
+    exact absurd (List.mem_map.2 ⟨f, hf, this⟩) hu
+
+/-- **C08_field_errors.** A present (non-null) field is reported on exactly through its chain: the entries naming
+it are the chain's error codes, so there is one iff the chain does not accept the value. -/
+theorem C08_field_verdict (env : Env) (sec : Str) (children : List (Str × PyVal)) (name : Str) (cs : List Constraint)
+    (v : PyVal) (hv : lookupLast name children = some v) (hnn : isNone v = false) (codes : List String)
+    (hc : evalChain env cs v = .errors codes) :
+    validateField env sec children (name, some cs) = .errors (codes.map fun c => ⟨c, fieldPath sec name, "error"⟩) := by
+  simp [validateField, hv, hnn, hc]
+
+/-- non-vacuity: a schema with two fields, an instance that omits the required one and adds an unknown one -/
+def exFields : List SField := [("NAME".toList, some [.req, .enum enum3]), ("AGE".toList, some [.opt, r15])]
+def exChildren : List (Str × PyVal) := [("EXTRA".toList, .int 1), ("AGE".toList, .int 9)]
+example : validateSection env0 "S".toList exChildren "REJECT".toList exFields = .errors
+    [⟨"E007", "S.EXTRA".toList, "error"⟩, ⟨"E003", "S.NAME".toList, "error"⟩, ⟨"E011", "S.AGE".toList, "error"⟩] := by decide
+example : validateSection env0 "S".toList exChildren "WARN".toList exFields = .errors
+    [⟨"W001", "S.EXTRA".toList, "warning"⟩, ⟨"E003", "S.NAME".toList, "error"⟩, ⟨"E011", "S.AGE".toList, "error"⟩] := by decide
+example : validateSection env0 "S".toList exChildren "IGNORE".toList exFields = .errors
+    [⟨"E003", "S.NAME".toList, "error"⟩, ⟨"E011", "S.AGE".toList, "error"⟩] := by decide
+example : policyOf "BOGUS".toList = .reject ∧ policyOf "WARN".toList = .warn ∧ policyOf "IGNORE".toList = .ignore := by decide
+
 end Octave.C08
